@@ -133,8 +133,8 @@ fn read_dump(path: &str) -> Vec<(u64, u8)> {
 pub fn run(tier: &str) -> i32 {
     let t0 = Instant::now();
     let known = Known::load();
-    let mcdir = format!("{}/mc", VERIF);
-    let dir = format!("{}/replays/C17", VERIF);
+    let mcdir = format!("{}/mc", verif());
+    let dir = format!("{}/replays/C17", verif());
     let _ = std::fs::create_dir_all(&dir);
     // step 0: the library must compile with the feature off (through the harness' feature switch)
     let log = format!("{}/{}_build_no_default_features.log", dir, tier);
